@@ -29,6 +29,13 @@ TxsOf(f) ==
     [] f = "tokinit"  -> {[k |-> "instantiate_token", c |-> t, init |-> i] : t \in {"bsei", "stsei"},
                              i \in {<<>>, <<[a |-> U1, x |-> 5]>>, <<[a |-> U1, x |-> 5], [a |-> U1, x |-> 7]>>,
                                     <<[a |-> U1, x |-> 5], [a |-> "hub", x |-> 2]>>}}
+    [] f = "airdrop"  -> {[k |-> "set_airdrop", a |-> a] : a \in {0, 5}}
+                         \cup {ExecTx("owner", "hub", [k |-> "update_config", dispatcher |-> "", registry |-> "", bsei |-> "", stsei |-> "",
+                                                        airdrop |-> "airdrop", rewards |-> "", updater |-> ""], <<>>)}
+                         \cup {ExecTx(s, "hub", [k |-> "claim_airdrop", airdrop_token_contract |-> "airtoken", airdrop_contract |-> "airdropc",
+                                                  airdrop_swap_contract |-> "airpair"], <<>>) : s \in {"airdrop", U1}}
+                         \cup {ExecTx(U1, "airdrop", [k |-> "fabricate_claim"], <<>>)}
+                         \cup {ExecTx("updater", "hub", [k |-> "update_global_index", hooks |-> h], <<>>) : h \in {1, 2}}
     [] f = "registry" -> {TxAddValidator(v) : v \in Vals} \cup {TxRemoveValidator(v) : v \in Vals}
                          \cup {TxRedelegations(U1, v) : v \in Vals}
                          \cup {[k |-> "set_canredel", v |-> v, b |-> b] : v \in Vals, b \in BOOLEAN}
